@@ -114,6 +114,7 @@ def run(facts, tr, rep):
                     and from_channel(tr.expand(tr.operand(hb, c.args[0], c.loc)), 0)]
     # ------------------------------------------------------------ EVIDENCE
     nfail = 0
+    fail_sites = []
     for b in descendants(facts, hb):
         if b is not hb and getattr(facts, "absorbed", None) is not None and facts.absorbed(b):
             continue          # an async helper awaited in place: its body is part of hb in this view
@@ -122,6 +123,8 @@ def run(facts, tr, rep):
             for j, s in enumerate(blk["stmts"]):
                 if s["k"] == "assign" and s["rv"]["k"] == "agg" and s["rv"]["ak"] == "adt" and s["rv"]["variant"] == "AllAttemptsFailed":
                     nfail += 1
+                    if b is hb:
+                        fail_sites.append(i)
                     if b is not hb:
                         rep.ob("C12.EVIDENCE", skey(b, "all-failed#%d" % (nfail - 1)), False, gb.where(i, j),
                                "all-attempts-failed is constructed inside a nested body")
@@ -142,8 +145,11 @@ def run(facts, tr, rep):
     rep.floor("C12.all-failed-sites", nfail, 1)
     # ... and recv() == None means "every sender is gone" only while the receiver is open: a coordinator that closes its own
     # receiver gets None with attempts still running (their later sends fail), and reports all-attempts-failed over them
+    # (closing once the outcome is decided - after the winner was received, on the way out - is harmless: what matters is
+    # a close from which the all-attempts-failed report can still be reached)
     closers = [c for b_ in [hb] + [x for x in descendants(facts, hb) if x is not hb] for c in graph(b_).calls()
                if c.name == "close" and "mpsc" in (c.def_ or c.path or "")]
+    closers = [c for c in closers if c.g.b is not hb or any(f_ in g.reach([c.bb], kinds=(N,)) for f_ in fail_sites)]
     rep.ob("C12.EVIDENCE", skey(hb, "receiver-stays-open"), not closers, closers[0].where() if closers else "%s:%d" % (hb.span["file"], hb.span["line"]),
            "the coordinator never closes the result channel's receiver: recv() == None is evidence that every attempt has reported" if not closers else
            "the coordinator closes the result channel's receiver (%s): recv() then answers None while attempts are still running, and their "
